@@ -169,7 +169,7 @@ func c17Run(r *Run, h int) {
 			n = 20 + rng.Intn(20)
 		}
 		for k := n; k > 0; k-- {
-			plans[ci] = append(plans[ci], []string{"inc", "inc", "rmw", "cas", "cas", "claim", "move", "share", "drop", "dropclaim", "lookclaim", "swap", "swinc", "swinc", "handover"}[rng.Intn(15)])
+			plans[ci] = append(plans[ci], []string{"inc", "inc", "rmw", "cas", "cas", "claim", "move", "share", "drop", "dropclaim", "lookclaim", "swap", "swinc", "swinc", "handover", "swcas"}[rng.Intn(16)])
 		}
 	}
 	seeds := make([]int64, nCli)
@@ -308,6 +308,14 @@ func c17Run(r *Run, h int) {
 						{Op: "update", Table: "Sw", Where: byName("s1"), Row: Row{"name": VA(AS("s0"))}},
 						{Op: "update", Table: "Sw", Where: byName(tmp), Row: Row{"name": VA(AS("s1"))}},
 						logOp}
+				case "swcas":
+					// an increment addressed by name AND by uuid: it counts when that row holds that name at that
+					// moment, and changes nothing (not even what a lookup by the name finds later) when it does not
+					w := []WCondJ{{Col: "name", Fn: "==", Val: VA(AS([]string{"s0", "s1"}[lr.Intn(2)]))}, {Col: "_uuid", Fn: "==", Val: VA(AU(mkUUID(21 + lr.Intn(2))))}}
+					if lr.Intn(2) == 0 {
+						w[0], w[1] = w[1], w[0]
+					}
+					ops = []OperationJ{{Op: "mutate", Table: "Sw", Where: w, Mutations: []MutationJ{{Col: "n", Mutator: "+=", Val: VA(AI(1))}}}, logOp}
 				case "swinc":
 					ops = []OperationJ{{Op: "mutate", Table: "Sw", Where: []WCondJ{{Col: "name", Fn: "==", Val: VA(AS([]string{"s0", "s1"}[lr.Intn(2)]))}},
 						Mutations: []MutationJ{{Col: "n", Mutator: "+=", Val: VA(AI(1))}}}, logOp}
@@ -557,6 +565,9 @@ func c17Run(r *Run, h int) {
 				r.Violation("serial", cs, strings.Join(t.Results, ";"), "count=1", true, "an increment by (unique) name did not find the row that holds the name", "")
 				return
 			}
+		}
+		if t.Accepted && t.Kind == "swcas" && len(t.Results) > 0 && strings.HasPrefix(t.Results[0], "count=1") {
+			swIncs++
 		}
 		if t.Accepted && t.Kind == "swap" {
 			for i := 0; i < 3 && i < len(t.Results); i++ {
